@@ -2518,3 +2518,362 @@ Theorem C08_complete_two_cur :
   C08_CallTie.cur_code (fun k : nat => 11 + Z.of_nat k) (C08_CallTie.complete_es es) = None.
 Proof. exact C08_CallTie.complete_two_cur. Qed.
 Print Assumptions C08_complete_two_cur.
+
+(* --------------------------------------------------------------------------------------------------------------
+   SOURCE TIE (expectation object): MockCheckedExpectedCall with its parameter lists (src/CppUTestExt/MockExpectedCall.cpp, MockNamedValue.cpp) as translated on every run into gen/Gen_HeapC08E.v -- every question the list asks returns the model's predicate, every tell leaves a heap representing the model's updated expectation and touches nothing else (_model); the oracle answers and ghost tells of the list / call theorems are runs of these translated functions on the represented expectations (answers_are_translated, tell_is_translated)
+   -------------------------------------------------------------------------------------------------------------- *)
+From CppUVerif Require gen.Gen_HeapC08E C08_ExpRep C08_ExpTie.
+Local Open Scope Z_scope.
+Theorem C08_exp_plist_accessors :
+  forall (pn : CHeap.hptr -> Z) (fuel : nat) (h : CHeap.heap) (lb : nat) (nb : nat * nat) (r : list (nat * nat)),
+  C08_ExpRep.plist_at h lb (nb :: r) ->
+  Gen_HeapC08E.src_plist_begin fuel h (CHeap.HPtr lb 0) = CMem.FOk (CHeap.HPtr (fst nb) 0) /\
+  Gen_HeapC08E.src_pnode_item fuel h (CHeap.HPtr (fst nb) 0) = CMem.FOk (CHeap.HPtr (snd nb) 0) /\
+  Gen_HeapC08E.src_pnode_getName pn fuel h (CHeap.HPtr (fst nb) 0) = CMem.FOk (pn (CHeap.HPtr (snd nb) 0)) /\
+  (exists nxt : CHeap.hptr,
+  Gen_HeapC08E.src_pnode_next fuel h (CHeap.HPtr (fst nb) 0) = CMem.FOk nxt /\ C08_ExpRep.pchain h nxt r).
+Proof. exact C08_ExpRep.plist_accessors. Qed.
+Print Assumptions C08_exp_plist_accessors.
+
+Theorem C08_exp_getValueByName_spec :
+  forall (pn : CHeap.hptr -> Z) (fuel : nat) (h : CHeap.heap) (lb : nat) (nbs : list (nat * nat)) (nm : Z),
+  C08_ExpRep.plist_at h lb nbs ->
+  (length nbs < fuel)%nat ->
+  Gen_HeapC08E.src_plist_getValueByName pn fuel h (CHeap.HPtr lb 0) nm =
+  CMem.FOk (C08_ExpRep.optr (C08_ExpRep.first_named pn nm nbs)).
+Proof. exact C08_ExpRep.getValueByName_spec. Qed.
+Print Assumptions C08_exp_getValueByName_spec.
+
+Theorem C08_exp_relatesTo_model :
+  forall nid : name -> Z,
+  (forall a b : name, nid a = nid b -> a = b) ->
+  forall (h : CHeap.heap) (eb li lo : nat) (e : expn) (pin pout : list (nat * nat)),
+  C08_ExpRep.exp_at nid h eb li lo e pin pout ->
+  forall (fuel : nat) (f : name),
+  Gen_HeapC08E.src_exp_relatesTo fuel h (CHeap.HPtr eb 0) (nid f) = CMem.FOk (CSem.b2z (relates f e)).
+Proof. exact C08_ExpRep.relatesTo_model. Qed.
+Print Assumptions C08_exp_relatesTo_model.
+
+Theorem C08_exp_relatesToObject_model :
+  forall (nid : name -> Z) (h : CHeap.heap) (eb li lo : nat) (e : expn) (pin pout : list (nat * nat)),
+  C08_ExpRep.exp_at nid h eb li lo e pin pout ->
+  forall (fuel : nat) (a : Z),
+  Gen_HeapC08E.src_exp_relatesToObject fuel h (CHeap.HPtr eb 0) a = CMem.FOk (CSem.b2z (relates_obj a e)).
+Proof. exact C08_ExpRep.relatesToObject_model. Qed.
+Print Assumptions C08_exp_relatesToObject_model.
+
+Theorem C08_exp_isFulfilled_model :
+  forall (nid : name -> Z) (h : CHeap.heap) (eb li lo : nat) (e : expn) (pin pout : list (nat * nat)),
+  C08_ExpRep.exp_at nid h eb li lo e pin pout ->
+  forall fuel : nat,
+  Gen_HeapC08E.src_exp_isFulfilled fuel h (CHeap.HPtr eb 0) = CMem.FOk (CSem.b2z (is_fulfilled e)).
+Proof. exact C08_ExpRep.isFulfilled_model. Qed.
+Print Assumptions C08_exp_isFulfilled_model.
+
+Theorem C08_exp_canMatchActualCalls_model :
+  forall (nid : name -> Z) (h : CHeap.heap) (eb li lo : nat) (e : expn) (pin pout : list (nat * nat)),
+  C08_ExpRep.exp_at nid h eb li lo e pin pout ->
+  forall fuel : nat,
+  Gen_HeapC08E.src_exp_canMatchActualCalls fuel h (CHeap.HPtr eb 0) = CMem.FOk (CSem.b2z (can_match e)).
+Proof. exact C08_ExpRep.canMatchActualCalls_model. Qed.
+Print Assumptions C08_exp_canMatchActualCalls_model.
+
+Theorem C08_exp_isOutOfOrder_model :
+  forall (nid : name -> Z) (h : CHeap.heap) (eb li lo : nat) (e : expn) (pin pout : list (nat * nat)),
+  C08_ExpRep.exp_at nid h eb li lo e pin pout ->
+  forall fuel : nat, Gen_HeapC08E.src_exp_isOutOfOrder fuel h (CHeap.HPtr eb 0) = CMem.FOk (CSem.b2z (e_ooo e)).
+Proof. exact C08_ExpRep.isOutOfOrder_model. Qed.
+Print Assumptions C08_exp_isOutOfOrder_model.
+
+Theorem C08_exp_getActualCallsFulfilled_model :
+  forall (nid : name -> Z) (h : CHeap.heap) (eb li lo : nat) (e : expn) (pin pout : list (nat * nat)),
+  C08_ExpRep.exp_at nid h eb li lo e pin pout ->
+  forall fuel : nat,
+  Gen_HeapC08E.src_exp_getActualCallsFulfilled fuel h (CHeap.HPtr eb 0) = CMem.FOk (Z.of_N (e_act e)).
+Proof. exact C08_ExpRep.getActualCallsFulfilled_model. Qed.
+Print Assumptions C08_exp_getActualCallsFulfilled_model.
+
+Theorem C08_exp_areParametersMatchingActualCall_model :
+  forall (nid : name -> Z) (h : CHeap.heap) (eb li lo : nat) (e : expn) (pin pout : list (nat * nat)),
+  C08_ExpRep.exp_at nid h eb li lo e pin pout ->
+  forall fuel : nat,
+  C08_ExpRep.fuel_ok e fuel ->
+  Gen_HeapC08E.src_exp_areParametersMatchingActualCall fuel h (CHeap.HPtr eb 0) =
+  CMem.FOk (CSem.b2z (params_matching e)).
+Proof. exact C08_ExpRep.areParametersMatchingActualCall_model. Qed.
+Print Assumptions C08_exp_areParametersMatchingActualCall_model.
+
+Theorem C08_exp_isMatchingActualCall_model :
+  forall (nid : name -> Z) (h : CHeap.heap) (eb li lo : nat) (e : expn) (pin pout : list (nat * nat)),
+  C08_ExpRep.exp_at nid h eb li lo e pin pout ->
+  forall fuel : nat,
+  C08_ExpRep.fuel_ok e fuel ->
+  Gen_HeapC08E.src_exp_isMatchingActualCall fuel h (CHeap.HPtr eb 0) = CMem.FOk (CSem.b2z (is_matching e)).
+Proof. exact C08_ExpRep.isMatchingActualCall_model. Qed.
+Print Assumptions C08_exp_isMatchingActualCall_model.
+
+Theorem C08_exp_isMatchingActualCallAndFinalized_model :
+  forall (nid : name -> Z) (h : CHeap.heap) (eb li lo : nat) (e : expn) (pin pout : list (nat * nat)),
+  C08_ExpRep.exp_at nid h eb li lo e pin pout ->
+  forall fuel : nat,
+  C08_ExpRep.fuel_ok e fuel ->
+  Gen_HeapC08E.src_exp_isMatchingActualCallAndFinalized fuel h (CHeap.HPtr eb 0) =
+  CMem.FOk (CSem.b2z (is_matching_fin e)).
+Proof. exact C08_ExpRep.isMatchingActualCallAndFinalized_model. Qed.
+Print Assumptions C08_exp_isMatchingActualCallAndFinalized_model.
+
+Theorem C08_exp_hasInputParameterWithName_model :
+  forall (nid : name -> Z) (pn : CHeap.hptr -> Z) (peq pcomp : CHeap.hptr -> CHeap.hptr -> Z)
+  (stands : CHeap.hptr -> name -> pv -> Prop),
+  (forall a b : name, nid a = nid b -> a = b) ->
+  forall (h : CHeap.heap) (eb li lo : nat) (e : expn) (pin pout : list (nat * nat)),
+  C08_ExpRep.exp_at nid h eb li lo e pin pout ->
+  C08_ExpRep.params_tied nid pn peq pcomp stands e pin pout ->
+  forall (fuel : nat) (n : name),
+  (length (e_params e) < fuel)%nat ->
+  Gen_HeapC08E.src_exp_hasInputParameterWithName pn fuel h (CHeap.HPtr eb 0) (nid n) =
+  CMem.FOk (CSem.b2z (has_input_name n e)).
+Proof. exact C08_ExpRep.hasInputParameterWithName_model. Qed.
+Print Assumptions C08_exp_hasInputParameterWithName_model.
+
+Theorem C08_exp_hasOutputParameterWithName_model :
+  forall (nid : name -> Z) (pn : CHeap.hptr -> Z) (peq pcomp : CHeap.hptr -> CHeap.hptr -> Z)
+  (stands : CHeap.hptr -> name -> pv -> Prop),
+  (forall a b : name, nid a = nid b -> a = b) ->
+  forall (h : CHeap.heap) (eb li lo : nat) (e : expn) (pin pout : list (nat * nat)),
+  C08_ExpRep.exp_at nid h eb li lo e pin pout ->
+  C08_ExpRep.params_tied nid pn peq pcomp stands e pin pout ->
+  forall (fuel : nat) (n : name),
+  (length (e_outs e) < fuel)%nat ->
+  Gen_HeapC08E.src_exp_hasOutputParameterWithName pn fuel h (CHeap.HPtr eb 0) (nid n) =
+  CMem.FOk (CSem.b2z (has_output_name n e)).
+Proof. exact C08_ExpRep.hasOutputParameterWithName_model. Qed.
+Print Assumptions C08_exp_hasOutputParameterWithName_model.
+
+Theorem C08_exp_hasInputParameter_model :
+  forall (nid : name -> Z) (pn : CHeap.hptr -> Z) (peq pcomp : CHeap.hptr -> CHeap.hptr -> Z)
+  (stands : CHeap.hptr -> name -> pv -> Prop),
+  (forall a b : name, nid a = nid b -> a = b) ->
+  forall (h : CHeap.heap) (eb li lo : nat) (e : expn) (pin pout : list (nat * nat)),
+  C08_ExpRep.exp_at nid h eb li lo e pin pout ->
+  C08_ExpRep.params_tied nid pn peq pcomp stands e pin pout ->
+  forall (fuel : nat) (a : CHeap.hptr) (n : name) (v : pv),
+  stands a n v ->
+  (length (e_params e) < fuel)%nat ->
+  Gen_HeapC08E.src_exp_hasInputParameter pn peq fuel h (CHeap.HPtr eb 0) a =
+  CMem.FOk (CSem.b2z (has_input n v e)).
+Proof. exact C08_ExpRep.hasInputParameter_model. Qed.
+Print Assumptions C08_exp_hasInputParameter_model.
+
+Theorem C08_exp_hasOutputParameter_model :
+  forall (nid : name -> Z) (pn : CHeap.hptr -> Z) (peq pcomp : CHeap.hptr -> CHeap.hptr -> Z)
+  (stands : CHeap.hptr -> name -> pv -> Prop),
+  (forall a b : name, nid a = nid b -> a = b) ->
+  forall (h : CHeap.heap) (eb li lo : nat) (e : expn) (pin pout : list (nat * nat)),
+  C08_ExpRep.exp_at nid h eb li lo e pin pout ->
+  C08_ExpRep.params_tied nid pn peq pcomp stands e pin pout ->
+  forall (fuel : nat) (a : CHeap.hptr) (n : name) (v : pv),
+  stands a n v ->
+  (length (e_outs e) < fuel)%nat ->
+  Gen_HeapC08E.src_exp_hasOutputParameter pn pcomp fuel h (CHeap.HPtr eb 0) a =
+  CMem.FOk (CSem.b2z (has_output n e)).
+Proof. exact C08_ExpRep.hasOutputParameter_model. Qed.
+Print Assumptions C08_exp_hasOutputParameter_model.
+
+Theorem C08_exp_finalizeActualCallMatch_model :
+  forall (nid : name -> Z) (fuel : nat) (h : CHeap.heap) (eb li lo : nat) (e : expn)
+  (pin pout : list (nat * nat)),
+  C08_ExpRep.exp_at nid h eb li lo e pin pout ->
+  exists h' : CHeap.heap,
+  Gen_HeapC08E.src_exp_finalizeActualCallMatch fuel h (CHeap.HPtr eb 0) = CMem.FOk (tt, h') /\
+  C08_ExpRep.tell_post nid h h' eb li lo (set_fin e true) pin pout.
+Proof. exact C08_ExpRep.finalizeActualCallMatch_model. Qed.
+Print Assumptions C08_exp_finalizeActualCallMatch_model.
+
+Theorem C08_exp_wasPassedToObject_model :
+  forall (nid : name -> Z) (fuel : nat) (h : CHeap.heap) (eb li lo : nat) (e : expn)
+  (pin pout : list (nat * nat)),
+  C08_ExpRep.exp_at nid h eb li lo e pin pout ->
+  exists h' : CHeap.heap,
+  Gen_HeapC08E.src_exp_wasPassedToObject fuel h (CHeap.HPtr eb 0) = CMem.FOk (tt, h') /\
+  C08_ExpRep.tell_post nid h h' eb li lo (pass_obj e) pin pout.
+Proof. exact C08_ExpRep.wasPassedToObject_model. Qed.
+Print Assumptions C08_exp_wasPassedToObject_model.
+
+Theorem C08_exp_resetActualCallMatchingState_model :
+  forall (nid : name -> Z) (fuel : nat) (h : CHeap.heap) (eb li lo : nat) (e : expn)
+  (pin pout : list (nat * nat)),
+  C08_ExpRep.exp_at nid h eb li lo e pin pout ->
+  C08_ExpRep.fuel_ok e fuel ->
+  exists h' : CHeap.heap,
+  Gen_HeapC08E.src_exp_resetActualCallMatchingState fuel h (CHeap.HPtr eb 0) = CMem.FOk (tt, h') /\
+  C08_ExpRep.tell_post nid h h' eb li lo (reset_e e) pin pout.
+Proof. exact C08_ExpRep.resetActualCallMatchingState_model. Qed.
+Print Assumptions C08_exp_resetActualCallMatchingState_model.
+
+Theorem C08_exp_inputParameterWasPassed_model :
+  forall (nid : name -> Z) (pn : CHeap.hptr -> Z) (peq pcomp : CHeap.hptr -> CHeap.hptr -> Z)
+  (stands : CHeap.hptr -> name -> pv -> Prop),
+  (forall a b : name, nid a = nid b -> a = b) ->
+  forall (fuel : nat) (h : CHeap.heap) (eb li lo : nat) (e : expn) (pin pout : list (nat * nat)) (n : name),
+  C08_ExpRep.exp_at nid h eb li lo e pin pout ->
+  C08_ExpRep.params_tied nid pn peq pcomp stands e pin pout ->
+  (length (e_params e) < fuel)%nat ->
+  exists h' : CHeap.heap,
+  Gen_HeapC08E.src_exp_inputParameterWasPassed pn fuel h (CHeap.HPtr eb 0) (nid n) = CMem.FOk (tt, h') /\
+  C08_ExpRep.tell_post nid h h' eb li lo (mark n e) pin pout.
+Proof. exact C08_ExpRep.inputParameterWasPassed_model. Qed.
+Print Assumptions C08_exp_inputParameterWasPassed_model.
+
+Theorem C08_exp_outputParameterWasPassed_model :
+  forall (nid : name -> Z) (pn : CHeap.hptr -> Z) (peq pcomp : CHeap.hptr -> CHeap.hptr -> Z)
+  (stands : CHeap.hptr -> name -> pv -> Prop),
+  (forall a b : name, nid a = nid b -> a = b) ->
+  forall (fuel : nat) (h : CHeap.heap) (eb li lo : nat) (e : expn) (pin pout : list (nat * nat)) (n : name),
+  C08_ExpRep.exp_at nid h eb li lo e pin pout ->
+  C08_ExpRep.params_tied nid pn peq pcomp stands e pin pout ->
+  (length (e_outs e) < fuel)%nat ->
+  exists h' : CHeap.heap,
+  Gen_HeapC08E.src_exp_outputParameterWasPassed pn fuel h (CHeap.HPtr eb 0) (nid n) = CMem.FOk (tt, h') /\
+  C08_ExpRep.tell_post nid h h' eb li lo (mark_out n e) pin pout.
+Proof. exact C08_ExpRep.outputParameterWasPassed_model. Qed.
+Print Assumptions C08_exp_outputParameterWasPassed_model.
+
+Theorem C08_exp_callWasMade_model_w :
+  forall (nid : name -> Z) (fuel : nat) (h : CHeap.heap) (eb li lo : nat) (e : expn)
+  (pin pout : list (nat * nat)) (order : N),
+  C08_ExpRep.exp_at nid h eb li lo e pin pout ->
+  C08_ExpRep.fuel_ok e fuel ->
+  exists h' : CHeap.heap,
+  Gen_HeapC08E.src_exp_callWasMade fuel h (CHeap.HPtr eb 0) (Z.of_N order) = CMem.FOk (tt, h') /\
+  C08_ExpRep.tell_post nid h h' eb li lo (C08_ExpRep.call_was_made_w order e) pin pout.
+Proof. exact C08_ExpRep.callWasMade_model_w. Qed.
+Print Assumptions C08_exp_callWasMade_model_w.
+
+Theorem C08_exp_callWasMade_model :
+  forall (nid : name -> Z) (fuel : nat) (h : CHeap.heap) (eb li lo : nat) (e : expn)
+  (pin pout : list (nat * nat)) (order : N),
+  C08_ExpRep.exp_at nid h eb li lo e pin pout ->
+  C08_ExpRep.fuel_ok e fuel ->
+  (e_act e + 1 < 4294967296)%N ->
+  exists h' : CHeap.heap,
+  Gen_HeapC08E.src_exp_callWasMade fuel h (CHeap.HPtr eb 0) (Z.of_N order) = CMem.FOk (tt, h') /\
+  C08_ExpRep.tell_post nid h h' eb li lo (call_was_made order e) pin pout.
+Proof. exact C08_ExpRep.callWasMade_model. Qed.
+Print Assumptions C08_exp_callWasMade_model.
+
+Theorem C08_exp_call_was_made_wraps :
+  forall (order : N) (e : expn),
+  e_act e = 4294967295%N ->
+  e_act (C08_ExpRep.call_was_made_w order e) = 0%N /\ e_act (call_was_made order e) = 4294967296%N.
+Proof. exact C08_ExpRep.call_was_made_wraps. Qed.
+Print Assumptions C08_exp_call_was_made_wraps.
+
+Theorem C08_exp_question_is_translated :
+  forall (nid : name -> Z) (pn : CHeap.hptr -> Z) (peq pcomp : CHeap.hptr -> CHeap.hptr -> Z)
+  (stands : CHeap.hptr -> name -> pv -> Prop),
+  (forall a b : name, nid a = nid b -> a = b) ->
+  forall (q : String.string) (run : nat -> CHeap.heap -> CHeap.hptr -> CMem.fres Z)
+  (val : expn -> Z) (h : CHeap.heap) (e : expn) (l : C08_ExpTie.elay) (fuel : nat),
+  C08_ExpTie.question nid pn peq pcomp stands q run val ->
+  C08_ExpTie.rep1 nid pn peq pcomp stands h e l ->
+  C08_ExpRep.fuel_ok e fuel -> run fuel h (CHeap.HPtr (C08_ExpTie.l_eb l) 0) = CMem.FOk (val e).
+Proof. exact C08_ExpTie.question_is_translated. Qed.
+Print Assumptions C08_exp_question_is_translated.
+
+Theorem C08_exp_answers_are_translated :
+  forall (nid : name -> Z) (pn : CHeap.hptr -> Z) (peq pcomp : CHeap.hptr -> CHeap.hptr -> Z)
+  (stands : CHeap.hptr -> name -> pv -> Prop),
+  (forall a b : name, nid a = nid b -> a = b) ->
+  forall (q : String.string) (run : nat -> CHeap.heap -> CHeap.hptr -> CMem.fres Z)
+  (val : expn -> Z) (mem : expn -> bool) (fuel : nat) (h : CHeap.heap) (es : list expn)
+  (lay : list C08_ExpTie.elay),
+  C08_ExpTie.question nid pn peq pcomp stands q run val ->
+  C08_ExpTie.master_at nid pn peq pcomp stands h es lay ->
+  Forall (fun e : expn => C08_ExpRep.fuel_ok e fuel) es ->
+  Forall2 (C08_ExpTie.answered run fuel h lay) (map val (filter mem es)) (C08_ListTie.pos_from mem 0 es).
+Proof. exact C08_ExpTie.answers_are_translated. Qed.
+Print Assumptions C08_exp_answers_are_translated.
+
+Theorem C08_exp_model_answers_are_translated :
+  forall (nid : name -> Z) (pn : CHeap.hptr -> Z) (peq pcomp : CHeap.hptr -> CHeap.hptr -> Z)
+  (stands : CHeap.hptr -> name -> pv -> Prop),
+  (forall a b : name, nid a = nid b -> a = b) ->
+  forall (q : String.string) (run : nat -> CHeap.heap -> CHeap.hptr -> CMem.fres Z)
+  (pred mem : expn -> bool) (fuel : nat) (h : CHeap.heap) (es : list expn) (lay : list C08_ExpTie.elay),
+  C08_ExpTie.question nid pn peq pcomp stands q run (fun e : expn => CSem.b2z (pred e)) ->
+  C08_ExpTie.master_at nid pn peq pcomp stands h es lay ->
+  Forall (fun e : expn => C08_ExpRep.fuel_ok e fuel) es ->
+  Forall2 (C08_ExpTie.answered run fuel h lay) (C08_ListTie.model_answers_of mem pred es)
+  (C08_ListTie.pos_from mem 0 es).
+Proof. exact C08_ExpTie.model_answers_are_translated. Qed.
+Print Assumptions C08_exp_model_answers_are_translated.
+
+Theorem C08_exp_ful_answers_are_translated :
+  forall (nid : name -> Z) (pn : CHeap.hptr -> Z) (peq pcomp : CHeap.hptr -> CHeap.hptr -> Z)
+  (stands : CHeap.hptr -> name -> pv -> Prop),
+  (forall a b : name, nid a = nid b -> a = b) ->
+  forall (f : name) (fuel : nat) (h : CHeap.heap) (es : list expn) (lay : list C08_ExpTie.elay),
+  C08_ExpTie.master_at nid pn peq pcomp stands h es lay ->
+  Forall (fun e : expn => C08_ExpRep.fuel_ok e fuel) es ->
+  Forall2
+  (fun (e : expn) (l : C08_ExpTie.elay) =>
+  Gen_HeapC08E.src_exp_relatesTo fuel h (CHeap.HPtr (C08_ExpTie.l_eb l) 0) (nid f) =
+  CMem.FOk (CSem.b2z (relates f e)) /\
+  Gen_HeapC08E.src_exp_getActualCallsFulfilled fuel h (CHeap.HPtr (C08_ExpTie.l_eb l) 0) =
+  CMem.FOk (Z.of_N (e_act e))) es lay /\
+  C08_ListTie.ful_answers f es =
+  flat_map
+  (fun e : expn =>
+  if relates f e then [CSem.b2z (relates f e); Z.of_N (e_act e)] else [CSem.b2z (relates f e)]) es.
+Proof. exact C08_ExpTie.ful_answers_are_translated. Qed.
+Print Assumptions C08_exp_ful_answers_are_translated.
+
+Theorem C08_exp_tell_is_translated :
+  forall (nid : name -> Z) (pn : CHeap.hptr -> Z) (peq pcomp : CHeap.hptr -> CHeap.hptr -> Z)
+  (stands : CHeap.hptr -> name -> pv -> Prop),
+  (forall a b : name, nid a = nid b -> a = b) ->
+  forall (idof : nat -> Z) (ev : Gen_HeapC08L.lev)
+  (run : nat -> CHeap.heap -> CHeap.hptr -> CMem.fres (unit * CHeap.heap)) (f : expn -> expn)
+  (pre : expn -> Prop) (fuel : nat) (h : CHeap.heap) (es : list expn) (lay : list C08_ExpTie.elay)
+  (i : nat) (e : expn) (l : C08_ExpTie.elay),
+  C08_ExpTie.tell nid pn (idof i) ev run f pre ->
+  C08_ExpTie.master_at nid pn peq pcomp stands h es lay ->
+  nth_error es i = Some e ->
+  nth_error lay i = Some l ->
+  C08_ExpRep.fuel_ok e fuel ->
+  pre e ->
+  exists h' : CHeap.heap,
+  run fuel h (CHeap.HPtr (C08_ExpTie.l_eb l) 0) = CMem.FOk (tt, h') /\
+  C08_ExpTie.master_at nid pn peq pcomp stands h' (CMem.upd es i (f e)) lay /\
+  length h' = length h /\
+  (forall b : nat, ~ In b (C08_ExpTie.lay_blocks l) -> CHeap.hblock h' b = CHeap.hblock h b).
+Proof. exact C08_ExpTie.tell_is_translated. Qed.
+Print Assumptions C08_exp_tell_is_translated.
+
+Theorem C08_exp_tells_are_translated :
+  forall (nid : name -> Z) (pn : CHeap.hptr -> Z) (peq pcomp : CHeap.hptr -> CHeap.hptr -> Z)
+  (stands : CHeap.hptr -> name -> pv -> Prop),
+  (forall a b : name, nid a = nid b -> a = b) ->
+  (nat -> Z) ->
+  forall (mk : Z -> Gen_HeapC08L.lev) (run : nat -> CHeap.heap -> CHeap.hptr -> CMem.fres (unit * CHeap.heap))
+  (f : expn -> expn) (pre : expn -> Prop) (mem : expn -> bool) (fuel : nat) (h : CHeap.heap)
+  (es : list expn) (lay : list C08_ExpTie.elay),
+  (forall id : Z, C08_ExpTie.tell nid pn id (mk id) run f pre) ->
+  C08_ExpTie.master_at nid pn peq pcomp stands h es lay ->
+  Forall (fun e : expn => C08_ExpRep.fuel_ok e fuel /\ (mem e = true -> pre e)) es ->
+  exists h' : CHeap.heap,
+  C08_ExpTie.run_tells run fuel h (C08_ExpTie.members mem es lay) = Some h' /\
+  C08_ExpTie.master_at nid pn peq pcomp stands h' (C08_ExpTie.told mem f es) lay /\
+  length h' = length h /\
+  (forall b : nat, ~ In b (concat (map C08_ExpTie.lay_blocks lay)) -> CHeap.hblock h' b = CHeap.hblock h b).
+Proof. exact C08_ExpTie.tells_are_translated. Qed.
+Print Assumptions C08_exp_tells_are_translated.
+
+Theorem C08_exp_idof_of_ok :
+  forall (nid : name -> Z) (pn : CHeap.hptr -> Z) (peq pcomp : CHeap.hptr -> CHeap.hptr -> Z)
+  (stands : CHeap.hptr -> name -> pv -> Prop) (h : CHeap.heap) (es : list expn) (lay : list C08_ExpTie.elay),
+  C08_ExpTie.master_at nid pn peq pcomp stands h es lay ->
+  C08_ListTie.idof_ok (C08_ExpTie.idof_of lay) (length es).
+Proof. exact C08_ExpTie.idof_of_ok. Qed.
+Print Assumptions C08_exp_idof_of_ok.
